@@ -286,7 +286,8 @@ func runAlias(c *core.Ctx) []core.Obligation {
 			}
 		}
 		if cast == nil {
-			b.und("keyfragment-immutable", c.FuncPos(fn), "no unsafe string view found in encodeKeyFragment")
+			// a fragment built as an ordinary string (string(b), concatenation) shares nothing
+			b.ok("keyfragment-immutable", c.FuncPos(fn), "encodeKeyFragment takes no unsafe string view of a buffer: the fragment is an ordinary immutable string")
 		} else {
 			after := false
 			bad := ""
